@@ -365,6 +365,39 @@ STRATEGY_WRAPPERS = [
 ]
 
 
+def t9_exponent_of_a_rational(ctx: Ctx):
+    """The lowered form of a rounding reads the exponent of the operand with `logb`.  Under `fp.REAL` the operand may be a
+    non-dyadic rational (`t = x / 3`), which `round` accepts; so must `logb`, or the lowered program raises where the source
+    returns.  `ops.logb` is evaluated, from its source, on rationals of both signs on either side of a power of two: the
+    answer is floor(log2|q|)."""
+    from fractions import Fraction
+
+    from ..minipy import Interp
+    OPS = 'fpy2/ops.py'
+    fn = ctx.fn(OPS, 'logb')
+    funcs = {n: f for n, f in ctx.repo.functions(OPS) if '.' not in n}
+    # the lowering does read the exponent that way
+    F2F = T + 'float_to_fixed.py'
+    uses = [k for q, f in ctx.repo.functions(F2F) for k in calls_in(f) if call_name(k) == 'Logb']
+    if not uses:
+        raise ShapeError('float_to_fixed no longer builds a Logb node: re-derive the premise')
+    for q in (Fraction(1, 3), Fraction(2, 3), Fraction(10, 3), Fraction(-5, 7), Fraction(1, 1000), Fraction(1023, 3), Fraction(-4, 3), Fraction(7, 5)):
+        it = Interp(funcs, globals_={'Fraction': Fraction}, is_a=lambda k, c: k == c,
+                    overrides={'_cvt_to_real': lambda x: x, 'is_dyadic': lambda x: False, 'RealFloat.from_int': lambda n: n, 'ctx.round': lambda v, **k: v})
+        try:
+            got: object = it.call_function(fn, [q, 'CTX'])
+        except ShapeError:
+            raise
+        except Exception as ex:
+            got = f'raises {type(ex).__name__}'
+        want = 0
+        while Fraction(2) ** want > abs(q):
+            want -= 1
+        while Fraction(2) ** (want + 1) <= abs(q):
+            want += 1
+        ctx.check(got == want, OPS, fn, 'logb', f'logb({q}) = {want}', f'answers {got}: `with fp.REAL: t = x / 3` / `with fp.FP16: y = round(t)` lowered by float_to_fixed raises where the source returns')
+
+
 def g2_scopeless_operations(ctx: Ctx):
     """The context analysis records every operation under the scope whose context rounds it -- except one in the header
     of a `with` (`with fp.MPFixedContext(n - 1):`), which is evaluated exactly and recorded under none (`_visit_context`
@@ -694,6 +727,7 @@ RULES = [
     Rule('C10.X1', 'block rewriters refuse what they cannot reproduce: unknown context first, class ladders end in Declined', x1_refusal_defaults, 30, 'X,P'),
     Rule('C10.F2', 'random bits are forwarded or stochastic sources refused wherever a context is rebuilt', f2_random_bits, 6, 'F,P'),
     Rule('C10.G1', 'roundings are removed / inserted only under round_is_identity; decision table of round_is_identity', g1_identity_guard, 22, 'G'),
+    Rule('C10.T9', 'the exponent the lowered rounding reads (logb) is defined for every operand the rounding accepts, a non-dyadic rational included', t9_exponent_of_a_rational, 8, 'T'),
     Rule('C10.G2', 'the rounding passes answer for an operation the context analysis records under no scope (a with header)', g2_scopeless_operations, 8, 'G'),
     Rule('C10.T2', 'UnfoldSpecial probes the source context for NaN, inf, zero (both signs) and emits the probe results', t2_special_probes, 9, 'T'),
     Rule('C10.S1', 'RoundElim / RoundInsert hoist nothing out of conditionally or repeatedly evaluated positions', hoist_mask_rule(ROUND_HOISTERS, 'C10.S1'), 12, 'S,X'),
@@ -703,6 +737,9 @@ RULES = [
 from ..selftest import Mutant  # noqa: E402
 
 MUTANTS = [
+    Mutant('logb-refuses-a-rational', 'fpy2/ops.py', "    t = _cvt_to_real(x)\n    if isinstance(t, Fraction):", "    t = _cvt_to_float(x)\n    if isinstance(t, Fraction):", 'C10.T9',
+           'finding F131 before its repair: the lowered rounding of x / 3 raises ValueError'),
+    Mutant('logb-of-a-rational-off-by-one-below-a-power-of-two', 'fpy2/ops.py', "        if (n << max(-e, 0)) < (d << max(e, 0)):\n            e -= 1      # abs(t) < 2 ** e\n", "", 'C10.T9'),
     Mutant('insert-round-asks-for-a-scope-that-is-not-there', RINS, "        scope = self.ctx_use.use_to_scope.get(e)   # type: ignore[call-overload]\n        if scope is None:\n            # an operation in the header of a `with` is evaluated exactly but\n            # belongs to no scope: there is no block to give it a format in\n            return False\n",
            "        scope = self.ctx_use.find_scope_from_use(e)   # type: ignore[arg-type]\n", 'C10.G2', 'finding F125 before its repair'),
     Mutant('elim-round-asks-for-a-scope-that-is-not-there', RELIM, "        scope = self.ctx_use.use_to_scope.get(e)\n        if scope is None:\n            return None\n", "        scope = self.ctx_use.find_scope_from_use(e)\n", 'C10.G2', 'finding F125 before its repair'),
